@@ -15,8 +15,11 @@ func VerifC07HandleWorkerMessage(code uint32, body []byte, from string) error {
 	if bizLogger == nil {
 		bizLogger = log.GetLoggerByIndex(log.P2PBizLogConfig, "verif")
 	}
-	w := &WorkerConn{}
-	w.logger = log.GetLoggerByIndex(log.P2PLogConfig, "verif")
+	if verifC07Conn == nil { // one connection object, one logger (GetLoggerByIndex builds a new one per call)
+		verifC07Conn = &WorkerConn{}
+		verifC07Conn.logger = log.GetLoggerByIndex(log.P2PLogConfig, "verif")
+	}
+	w := verifC07Conn
 	data, err := marshalMessage(Message{Code: code, Body: body})
 	if err != nil {
 		return err
@@ -24,6 +27,8 @@ func VerifC07HandleWorkerMessage(code uint32, body []byte, from string) error {
 	w.handleMessage(data, from)
 	return nil
 }
+
+var verifC07Conn *WorkerConn
 
 // VerifC07TransactionGotMsg is the message code of a transaction push.
 const VerifC07TransactionGotMsg = TransactionGotMsg
